@@ -293,7 +293,7 @@ func (g *genCtx) dims() (maxTasks, maxOps, maxPhases int) {
 
 // genConc builds a scenario for a property.
 func genConc(prop string, seed uint64, tier string) *ConcScenario {
-	g := &genCtx{r: simrt.NewRNG(seed, 0x9E4), tier: tier}
+	g := &genCtx{r: simrt.NewRNG(seed, 0x9E4), tier: tier, nextVal: 1000}
 	sc := &ConcScenario{Prop: prop, SchedSeed: simrt.Mix64(seed ^ 0x5CED), TableSeed: simrt.Mix64(seed ^ 0x7AB1E)}
 	sc.Epoch = time.Date(2000, 1, 1, 0, 0, 0, 0, time.UTC).UnixNano() + g.r.Int63n(int64(200*365*24)*int64(time.Hour))
 	sc.PrefillKeep = -1
@@ -436,7 +436,38 @@ func (g *genCtx) c05Workload(sc *ConcScenario, hot int) {
 	ph.Tasks = nil
 	key := 0
 	filler := 50
-	if g.r.Bool(0.5) {
+	wl := g.r.Intn(3)
+	if wl == 2 {
+		// swap chain: k tasks x n LoadAndStore / GetAndSet of unique values on one key
+		n := 2 + g.r.Intn(3)
+		m := 1 + g.r.Intn(3)
+		for i := 0; i < n; i++ {
+			var prog []Op
+			for j := 0; j < m; j++ {
+				if cacheFam {
+					prog = append(prog, Op{K: CGetAndSet, Key: key, Val: g.val(), D: []int64{0, int64(time.Hour), sentinelNoExp}[g.r.Intn(3)]})
+				} else {
+					prog = append(prog, Op{K: MLoadAndStore, Key: key, Val: g.val()})
+				}
+			}
+			ph.Tasks = append(ph.Tasks, prog)
+		}
+		if g.r.Bool(0.6) {
+			var prog []Op
+			for j := 0; j < 1+g.r.Intn(3); j++ {
+				if cacheFam {
+					if g.r.Bool(0.6) {
+						prog = append(prog, Op{K: CGetAndRefresh, Key: key, D: int64(time.Hour)})
+					} else {
+						prog = append(prog, Op{K: CGet, Key: key})
+					}
+				} else {
+					prog = append(prog, Op{K: MLoad, Key: key})
+				}
+			}
+			ph.Tasks = append(ph.Tasks, prog)
+		}
+	} else if wl == 0 {
 		// racers on one key (absent, live or expired-uncleaned depending on set-up and advance)
 		n := 2 + g.r.Intn(3)
 		for i := 0; i < n; i++ {
